@@ -1,7 +1,10 @@
 """C08, part "planck": Planck / Rayleigh-Jeans radiances, both brightness
 temperature inversions and the wavelength / wavenumber forms over a lattice of
 frequencies f and x = h f / (k T), x in [1e-6, 600], called with every
-scalar / array combination of (f, T) listed in MODES.
+scalar / array combination of (f, T) listed in MODES. The shards "reps" feed
+whole-number frequencies, wavenumbers, wavelengths and temperatures in every
+other representation of c08_reps that holds them exactly, one argument at a
+time and both together, in the forms of REP_LAYOUTS.
 
 Reference: B = 2 h f^3 / c^2 / expm1(x) in numpy.longdouble (64-bit mantissa),
 which has no cancellation at small x. Tolerances are conditioning-based: a
@@ -10,14 +13,30 @@ exp(x) - 1 or with expm1) has a relative error of a few eps * (1 + x + 1/x).
 """
 import numpy as np
 
+from checks import c08_reps as reps
 from checks.c08_units import frequencies
 
 LD = np.longdouble
-EPS = 2.0 ** -52
+EPS = reps.EPS64
 K = 16                       # rounding steps allowed per evaluated formula
 X_MIN, X_MAX = 1e-6, 600.0
 T_MIN, T_MAX = 2.0, 1e4
 OUTER_T = (2.0, 10.0, 77.0, 300.0, 1000.0, 5800.0, 1e4)
+REP_SCALAR_T = {"quick": (2.0, 300.0, 1e4), "thorough": OUTER_T}
+# whole frequencies [Hz]; the powers of two are exact in single precision
+WHOLE_F = sorted({m * 10 ** e for e in range(6, 13) for m in (100, 250, 999)}
+                 | {2 ** k for k in (27, 30, 33, 36, 40, 43, 46, 49)}
+                 | {10 ** 15})
+WHOLE_N = (1, 100, 500, 1000, 1500, 10 ** 5, 10 ** 6, 3 * 10 ** 6)   # [1/m]
+EXACT_L = (2, 1, 2.0 ** -4, 2.0 ** -10, 2.0 ** -14, 2.0 ** -17, 2.0 ** -20)
+# (representation of f, of T): None = float64 baseline
+REP_PAIRS = [(r, None) for r in ("int", "int64", "int32", "float32")] + \
+    [(None, r) for r in ("int64", "int32", "int16", "float32")] + \
+    [(r, r) for r in ("int", "int64", "int32", "float32")]
+# form of (f, T) in the call
+REP_LAYOUTS = {"scalar": (None, None), "f-array": ("row", None),
+               "column": (None, "row"), "outer": ("col", "row")}
+SPECTRAL = {"f": "planck", "n": "planck_wavenumber", "l": "planck_wavelength"}
 
 
 def consts():
@@ -72,11 +91,38 @@ MODES = ("float", "float64", "int-T", "column", "row", "outer", "f-array",
 
 
 def shards(tier):
-    return [("planck", tier, mode) for mode in MODES]
+    return [("planck", tier, mode) for mode in MODES] + \
+        [("planck", tier, "reps", var) for var in SPECTRAL]
+
+
+def frequency(var, v):
+    """Frequency [Hz] of the value v of a spectral variable."""
+    c = float(consts()[2])
+    return {"f": float(v), "n": c * v, "l": c / v}[var]
+
+
+def rep_cases(tier, var):
+    values = {"f": WHOLE_F, "n": WHOLE_N, "l": EXACT_L}[var]
+    for layout, (vform, tform) in REP_LAYOUTS.items():
+        for vrep, trep in REP_PAIRS:
+            if (vrep == "int" and vform) or (trep == "int" and tform):
+                continue            # a list of Python ints is an int64 array
+            held = [v for v in values if reps.representable(v, vrep)]
+            for vs in ([held] if vform else [[v] for v in held]):
+                for Ts in ([list(OUTER_T)] if tform else
+                           [[T] for T in REP_SCALAR_T[tier]]):
+                    if any(in_domain(frequency(var, v), T)
+                           for v in vs for T in Ts):
+                        yield dict(part="planck", mode="reps", var=var,
+                                   layout=layout, reps=[vrep, trep], f=vs,
+                                   T=Ts)
 
 
 def cases(shard):
-    _, tier, mode = shard
+    _, tier, mode = shard[:3]
+    if mode == "reps":
+        yield from rep_cases(tier, shard[3])
+        return
     lat = lattice(tier)
     if mode in ("float", "float64"):
         for f, Ts in lat.items():
@@ -120,7 +166,9 @@ def points(case):
 def nontrivial(case):
     """contains a lattice point in a regime where exp(x) - 1 / log(1 + y)
     cancel (x <= 1e-3) or where exp(x) is huge (x >= 100)"""
-    xs = [x_of(f, T) for f, T in points(case) if in_domain(f, T)]
+    var = case.get("var", "f")
+    xs = [x_of(frequency(var, v), T) for v, T in points(case)
+          if in_domain(frequency(var, v), T)]
     return any(x <= 1e-3 or x >= 100 for x in xs)
 
 
@@ -129,8 +177,18 @@ def as_int(T):
     return int(T)
 
 
+def represented(values, rep, form):
+    if form is None:
+        return reps.scalar(values[0], rep)
+    arr = reps.array(values, rep)
+    return arr if form == "row" else arr[:, None]
+
+
 def arguments(case):
     mode = case["mode"]
+    if mode == "reps":
+        return tuple(represented(case[name], rep, form) for name, rep, form
+                     in zip("fT", case["reps"], REP_LAYOUTS[case["layout"]]))
     if mode == "float":
         return float(case["f"][0]), float(case["T"][0])
     if mode == "float64":
@@ -156,6 +214,8 @@ def evaluate(case):
     from typhon.physics import em
     f, T = arguments(case)
     c = constants.speed_of_light
+    # c / f and f / c are the harness' own arithmetic: in double precision
+    wide = np.asarray(f, dtype=float)[()] if case["mode"] == "reps" else f
     shape = np.broadcast(f, T).shape
     out = {}
     with np.errstate(all="ignore"):
@@ -166,8 +226,8 @@ def evaluate(case):
              lambda: em.radiance2planckTb(f, out["planck"])),
             ("radiance2rayleighjeansTb",
              lambda: em.radiance2rayleighjeansTb(f, out["rayleighjeans"])),
-            ("planck_wavelength", lambda: em.planck_wavelength(c / f, T)),
-            ("planck_wavenumber", lambda: em.planck_wavenumber(f / c, T)),
+            ("planck_wavelength", lambda: em.planck_wavelength(c / wide, T)),
+            ("planck_wavenumber", lambda: em.planck_wavenumber(wide / c, T)),
         ]
         for name, call in calls:
             try:
@@ -182,7 +242,9 @@ def evaluate(case):
 
 
 def judge(f, T, r):
-    """All statement clauses at one lattice point; r: name -> double."""
+    """All statement clauses at one lattice point; r: name -> double. A
+    clause that relates two results is only judged when the results it starts
+    from are right themselves."""
     h, k, c = consts()
     fl, Tl = LD(f), LD(T)
     x = h * fl / (k * Tl)
@@ -199,30 +261,34 @@ def judge(f, T, r):
     if not (np.isfinite(r["planck"]) and r["planck"] > 0):
         bad.append(("planck/not-positive", "> 0", r["planck"], where))
         return bad
-    if not rel(r["planck"], B) <= tol:
+    planck_ok = bool(rel(r["planck"], B) <= tol)
+    rj_ok = bool(rel(r["rayleighjeans"], RJ) <= K * EPS)
+    if not planck_ok:
         bad.append(("planck/value", float(B), r["planck"], where))
-    if not rel(r["rayleighjeans"], RJ) <= K * EPS:
+    if not rj_ok:
         bad.append(("rayleighjeans/value", float(RJ), r["rayleighjeans"],
                     where))
     # 1 - x/2 < B/RJ = x / expm1(x) < 1 for every x > 0: "never exceeds" and
     # "approaches as x -> 0" in one two-sided bound
     deficit = 1 - got["planck"] / got["rayleighjeans"]
-    if not deficit >= -tol:
+    if planck_ok and rj_ok and not deficit >= -tol:
         bad.append(("planck/exceeds-rayleighjeans", "<= %r"
                     % r["rayleighjeans"], r["planck"], where))
-    if not deficit <= x / 2 + tol:
+    if planck_ok and rj_ok and not deficit <= x / 2 + tol:
         bad.append(("planck/rayleighjeans-limit", "1 - B/RJ <= x/2",
                     float(deficit), where))
     # T = (h f / k) / log1p(1 / y): the error of B enters with factor
     # (1 - exp(-x)) / x <= 1, the logarithm adds eps / x
     tol_tb = LD(K * EPS) * (1 + 1 / x)
-    if not rel(r["radiance2planckTb"], Tl) <= tol_tb:
+    if planck_ok and not rel(r["radiance2planckTb"], Tl) <= tol_tb:
         bad.append(("planckTb/not-inverse-of-planck", T,
                     r["radiance2planckTb"], where))
-    if not rel(r["radiance2rayleighjeansTb"], Tl) <= K * EPS:
+    if rj_ok and not rel(r["radiance2rayleighjeansTb"], Tl) <= K * EPS:
         bad.append(("rayleighjeansTb/not-inverse-of-rayleighjeans", T,
                     r["radiance2rayleighjeansTb"], where))
     # both sides of the stated identities carry their own rounding
+    if not planck_ok:
+        return bad
     if not rel(r["planck_wavelength"], got["planck"] * fl ** 2 / c) <= 2 * tol:
         bad.append(("planck_wavelength/not-planck-times-f2-over-c",
                     float(got["planck"] * fl ** 2 / c),
@@ -233,7 +299,54 @@ def judge(f, T, r):
     return bad
 
 
+def judge_form(var, v, T, got):
+    """planck_wavenumber / planck_wavelength called directly at v: the stated
+    image c B resp. B f^2 / c of the reference B at f = c v resp. c / v."""
+    h, k, c = consts()
+    fl = c * LD(v) if var == "n" else c / LD(v)
+    x = h * fl / (k * LD(T))
+    B = 2 * h * fl ** 3 / c ** 2 / np.expm1(x)
+    ref = B * c if var == "n" else B * fl ** 2 / c
+    if np.isfinite(got) and abs(LD(got) - ref) <= \
+            LD(K * EPS) * (1 + x + 1 / x) * ref:
+        return []
+    return [(SPECTRAL[var] + "/value", float(ref), got,
+             "%s=%r T=%r x=%.6g" % (var, v, T, float(x)))]
+
+
+def check_form(case):
+    from typhon.physics import em
+    var, name = case["var"], SPECTRAL[case["var"]]
+    v, T = arguments(case)
+    try:
+        with np.errstate(all="ignore"):
+            out = getattr(em, name)(v, T)
+    except Exception as e:
+        return [("exception/%s/%s" % (name, type(e).__name__), None,
+                 repr(e)[:200], "")], 0
+    shape = np.broadcast(v, T).shape
+    if np.shape(out) != shape:
+        return [("planck/shape", list(shape), list(np.shape(out)), name)], 0
+    out = np.asarray(out, dtype=float).ravel()
+    bad, judged = {}, 0
+    for (v, T), got in zip(points(case), out):
+        if in_domain(frequency(var, v), T):
+            judged += 1
+            for b in judge_form(var, v, T, float(got)):
+                bad.setdefault(b[0], b)
+    return list(bad.values()), judged
+
+
 def check(case):
+    case_reps = case.get("reps", ())
+    if case.get("var", "f") != "f":
+        bad, judged = check_form(case)
+    else:
+        bad, judged = check_frequency(case)
+    return reps.tagged(bad, *case_reps), judged
+
+
+def check_frequency(case):
     r = evaluate(case)
     if isinstance(r, tuple):
         return [r], 0
